@@ -278,7 +278,11 @@ impl Sim {
         out.count("rewind");
     }
 
-    fn step(&mut self, out: &mut Out, ts: u64, nunc: usize, variants: bool) {
+    /// `false`: the chain cannot be continued with the shared `ChainBuilder` — the block to finalise pays less
+    /// than the capacity its reward cell occupies (deep halvings of a small initial reward), a case in which
+    /// the cellbase must have NO output, while the builder always writes one; nothing was submitted, no op
+    /// line written, the caller ends the case
+    fn step(&mut self, out: &mut Out, ts: u64, nunc: usize, variants: bool) -> bool {
         let variants = variants && !self.forking;
         let sn = self.snap_now();
         self.snaps.push(sn);
@@ -295,6 +299,13 @@ impl Sim {
         let blk = self.builder.build(&parent.hash(), &spec);
         let number = blk.number();
         let op = format!("nb {} {} {}", number, ts, nunc);
+        if let Some(o) = blk.transactions()[0].outputs().get(0) {
+            if o.is_lack_of_capacity(Capacity::zero()).unwrap_or(true) {
+                self.snaps.pop();
+                out.count("stop-reward-below-cell-capacity");
+                return false;
+            }
+        }
         if variants {
             let e = blk.epoch();
             let ct = blk.compact_target();
@@ -440,6 +451,7 @@ impl Sim {
             self.pool.remove(0);
         }
         self.tip = blk;
+        true
     }
 
     fn finish(mut self) {
@@ -530,14 +542,18 @@ fn run_generated(out: &mut Out, rng: &mut Rng, base: &std::path::Path, cfg: Cfg,
         let nunc = want.min(sim.available_uncles().len());
         // variants around epoch boundaries and now and then
         let variants = new_epoch || in_epoch_pos + 1 == e.length() || rng.chance(1, 40);
-        sim.step(out, ts, nunc, variants);
+        if !sim.step(out, ts, nunc, variants) {
+            break;
+        }
     }
     // a fork episode still open at the end: extend until the node has adopted the branch (bounded)
     let mut extra = 0;
     while sim.forking && extra < 40 {
         extra += 1;
         ts += policy.dt;
-        sim.step(out, ts, 0, false);
+        if !sim.step(out, ts, 0, false) {
+            break;
+        }
     }
     if sim.forking {
         out.count("fork-not-adopted");
@@ -575,7 +591,7 @@ pub fn run(opts: &Opts) {
                 "nb" => {
                     let s = sim.as_mut().expect("ninit first");
                     assert_eq!(parse_u(t[1]), s.tip.number() + 1, "malformed sequence: block numbers must be consecutive");
-                    s.step(&mut out, parse_u(t[2]), parse_u(t[3]) as usize, false);
+                    assert!(s.step(&mut out, parse_u(t[2]), parse_u(t[3]) as usize, false), "malformed sequence: the block's finalisation reward is below the capacity of its reward cell");
                 }
                 "nback" => {
                     let s = sim.as_mut().expect("ninit first");
